@@ -1,6 +1,8 @@
 #!/bin/sh
 # usage: tools/run_mutant_scratch.sh <patch> <prop>...  like run_mutant.sh, but applies the patch to a scratch
 # worktree and points the checks at it with HTS_SRC, so /repo is never touched (safe while sweeps run).
+# The regression corpus is skipped (HTSV_NO_CORPUS=1) so that the result measures the search, not the corpus.
+# Output per check: "<patch> <prop> exit=<rc> <violation line> [replay=<file>]"
 patch="$1"; shift
 wt=/tmp/mut-$$
 git -C /repo worktree add -q "$wt" HEAD || exit 2
@@ -8,7 +10,8 @@ trap 'git -C /repo worktree remove --force "$wt"; git -C /repo worktree prune' E
 git -C "$wt" apply "$patch" || { echo "patch does not apply: $patch"; exit 2; }
 cd /verif
 for p in "$@"; do
-  out=$(HTS_SRC="$wt" ./bin/htsverif check "$p" --tier quick --no-evidence 2>&1); rc=$?
+  out=$(HTSV_NO_CORPUS=${HTSV_NO_CORPUS-1} HTS_SRC="$wt" ./bin/htsverif check "$p" --tier quick --no-evidence 2>&1); rc=$?
   line=$(echo "$out" | grep -E "^violation kind" | head -1)
-  echo "$(basename "$patch") $p exit=$rc $line"
+  rp=$(echo "$out" | sed -n 's/^VIOLATION property=[A-Z0-9]* replay=//p' | head -1)
+  echo "$(basename "$patch") $p exit=$rc $line${rp:+ replay=$rp}"
 done
